@@ -25,6 +25,8 @@ enum RecvMode {
     RecvFrom,
     TryRecv,
     Readable,
+    /// alternates the three receive paths on one socket
+    Mixed,
 }
 
 #[derive(Clone, Debug)]
@@ -127,9 +129,28 @@ struct Live {
 }
 
 async fn receiver(log: Log<Ev>, k: usize, spec: SockSpec, sock: Rc<UdpSocket>) {
+    let mut turn = 0u32;
     loop {
         let mut buf = vec![0u8; spec.buf];
-        let r = match spec.mode {
+        turn += 1;
+        let mode = match spec.mode {
+            RecvMode::Mixed => match turn % 4 {
+                // readable() parks a datagram in the socket's one-slot buffer; the
+                // following receive call must hand exactly that datagram out
+                0 => {
+                    if sock.readable().await.is_err() {
+                        return;
+                    }
+                    RecvMode::RecvFrom
+                }
+                1 => RecvMode::Readable,
+                2 => RecvMode::RecvFrom,
+                _ => RecvMode::TryRecv,
+            },
+            m => m,
+        };
+        let r = match mode {
+            RecvMode::Mixed => unreachable!(),
             RecvMode::RecvFrom => sock.recv_from(&mut buf).await,
             RecvMode::Readable => {
                 if sock.readable().await.is_err() {
@@ -281,7 +302,7 @@ fn gen(seed: u64, overflow: bool) -> Scn {
             host: r.usize_below(nhosts),
             local_bind: r.chance(0.15),
             port: if r.chance(0.3) { 0 } else { r.pick_copy(&fixed_ports) },
-            mode: r.pick_copy(&[RecvMode::RecvFrom, RecvMode::RecvFrom, RecvMode::TryRecv, RecvMode::Readable]),
+            mode: r.pick_copy(&[RecvMode::RecvFrom, RecvMode::RecvFrom, RecvMode::TryRecv, RecvMode::Readable, RecvMode::Mixed]),
             buf: r.pick_copy(&[0usize, 1, 8, 12, 100, 2000, 2000]),
         });
     }
